@@ -172,6 +172,12 @@ def g_pairwise(rng, cands=None):
                 y = x
             out[(a, b)] = x
             out[(b, a)] = y
+    if rng.random() < 0.45 and len(out) > 2:
+        # sparse dictionaries (a pair nobody ranked, a unanimous contest): evaluators that complete the pairs
+        # must do so on a copy, never in the caller's dictionary
+        keys = list(out)
+        for k in rng.sample(keys, rng.randint(1, len(keys) - 1)):
+            del out[k]
     return out
 
 
